@@ -148,7 +148,7 @@ NOT_CLAIMED = {   # property id -> reason, for properties without a registered c
 
 PROPS["C07"] = dict(
     module="TmcgProps.C07",
-    areas=[("rng", {"quick": 1500, "thorough": 60000}, [], "san")],
+    areas=[("rng", {"quick": 1500, "thorough": 40000}, [], "san")],
     obligations=[
         ("Tmcg.C07.nomodbias_accept_set", "full"),
         ("Tmcg.C07.nomodbias_uniform", "full"),
@@ -455,7 +455,7 @@ def pred_c05(line, st):
     return None
 
 
-ZK_AREAS = [("zk", {"quick": 25, "thorough": 400}, [], "fast")]
+ZK_AREAS = [("zk", {"quick": 25, "thorough": 120}, [], "fast")]
 ZK_TRUST = ["hash oracle replay: the model recomputes every Fiat-Shamir query string and takes the answer from the run",
             "the zk area runs the non-sanitized build (the library allocates 640 MB line buffers per stack read, which ASan makes very slow)"]
 LEVEL_NOTE = ("Trusted: Lean kernel, propext/Classical.choice/Quot.sound, the C++ harness and its libgcrypt interposer, the compiled Lean driver; "
@@ -463,7 +463,7 @@ LEVEL_NOTE = ("Trusted: Lean kernel, propext/Classical.choice/Quot.sound, the C+
 
 PROPS["C01"] = dict(
     module="TmcgProps.C01",
-    areas=[("vtmf", {"quick": 150, "thorough": 3000}, [], "san"), ("tmcg", {"quick": 200, "thorough": 4000}, [], "san")],
+    areas=[("vtmf", {"quick": 150, "thorough": 1000}, [], "san"), ("tmcg", {"quick": 200, "thorough": 1500}, [], "san")],
     obligations=[("Tmcg.C01.vtmf_open_correct", "full"), ("Tmcg.C01.vtmf_open_missing_share", "full"),
                  ("Tmcg.C01.vtmf_players_spec", "full"), ("Tmcg.C01.remask_preserves_plain", "full"),
                  ("Tmcg.C01.tmcg_open_correct", "full"), ("Tmcg.C01.tmcg_secret_columns", "full"),
@@ -477,7 +477,7 @@ PROPS["C01"] = dict(
 )
 PROPS["C02"] = dict(
     module="TmcgProps.C02",
-    areas=[("shuffle", {"quick": 150, "thorough": 3000}, [], "san")],
+    areas=[("shuffle", {"quick": 150, "thorough": 1000}, [], "san")],
     obligations=[("Tmcg.C02.mix_opens_to_source", "full"), ("Tmcg.C02.mix_preserves_multiset", "full"),
                  ("Tmcg.C02.nonbijective_drops", "full"), ("Tmcg.C02.fresh_secret_is_bijection", "full"),
                  ("Tmcg.C02.fresh_rotation_is_shift", "full"), ("Tmcg.C02.import_accepts_iff_bijection", "full"),
@@ -508,7 +508,7 @@ PROPS["C03"] = dict(
 )
 PROPS["C08"] = dict(
     module="TmcgProps.C08",
-    areas=[("vtmf", {"quick": 150, "thorough": 3000}, [], "san")],
+    areas=[("vtmf", {"quick": 150, "thorough": 1000}, [], "san")],
     obligations=[("Tmcg.C08.key_refines_product", "full"), ("Tmcg.C08.all_orders_same_key", "full"),
                  ("Tmcg.C08.all_players_agree", "full"), ("Tmcg.C08.refused_is_noop", "full"),
                  ("Tmcg.C08.outside_group_refused", "full"), ("Tmcg.C08.remove_restores", "full"),
@@ -528,7 +528,7 @@ def pred_c09_all(line, st):
 
 PROPS["C09"] = dict(
     module="TmcgProps.C09",
-    areas=[("arith", {"quick": 600, "thorough": 30000}, [], "san"),
+    areas=[("arith", {"quick": 600, "thorough": 10000}, [], "san"),
            ("rabin", {"quick": 1, "thorough": 1}, ["--only-sqrt", "--sqrt-primes", "150"], "san")],
     obligations=[("Tmcg.C09.powm_is_power", "full"), ("Tmcg.C09.powm_neg_is_inverse_power", "full"),
                  ("Tmcg.C09.spowm_eq_powm", "full"), ("Tmcg.C09.spowm_refusals", "full"),
@@ -707,7 +707,7 @@ def pred_c06(line, st):
 
 PROPS["C06"] = dict(
     module="TmcgProps.C06",
-    areas=[("groups", {"quick": 160, "thorough": 4000}, [], "san")],
+    areas=[("groups", {"quick": 160, "thorough": 1500}, [], "san")],
     obligations=[("Tmcg.C06.checkGroup_D_iff", "full"), ("Tmcg.C06.checkGroup_D_canonical_iff", "full"),
                  ("Tmcg.C06.checkGroup_G_iff", "full"), ("Tmcg.C06.checkGroup_R_canonical_iff", "full"),
                  ("Tmcg.C06.checkGroup_NP_iff", "full"), ("Tmcg.C06.checkGroup_PT_iff", "full"),
@@ -737,10 +737,10 @@ def pred_c11(line, st):
     return None
 
 
-PROPS["C06"]["areas"] = [("groups", {"quick": 160, "thorough": 4000}, [], "san")]
+PROPS["C06"]["areas"] = [("groups", {"quick": 160, "thorough": 1500}, [], "san")]
 PROPS["C11"] = dict(
     module="TmcgProps.C11",
-    areas=[("io", {"quick": 200, "thorough": 6000}, [], "san")],
+    areas=[("io", {"quick": 200, "thorough": 2500}, [], "san")],
     obligations=[("Tmcg.C11.int62_roundtrip", "full"), ("Tmcg.C11.card_import_export", "full"),
                  ("Tmcg.C11.secret_import_export", "full"), ("Tmcg.C11.stack_import_export", "full"),
                  ("Tmcg.C11.stack_import_refuses_size", "full"), ("Tmcg.C11.stacksecret_import_export", "full"),
@@ -785,7 +785,7 @@ def pred_c13(line, st):
 
 PROPS["C13"] = dict(
     module="TmcgProps.C13",
-    areas=[("aio", {"quick": 96, "thorough": 3000}, [], "san")],
+    areas=[("aio", {"quick": 96, "thorough": 1000}, [], "san")],
     obligations=[("Tmcg.C13.recv_fragmentation_invariant_safety", "full"),
                  ("Tmcg.C13.recv_fragmentation_invariant_delivery", "full"),
                  ("Tmcg.C13.send_fits_buffer", "full"), ("Tmcg.C13.first_newline_is_delimiter", "full"),
@@ -813,8 +813,8 @@ def pred_c12(line, st):
 
 PROPS["C12"] = dict(
     module="TmcgProps.C12",
-    areas=[("io", {"quick": 200, "thorough": 6000}, [], "san"), ("groups", {"quick": 100, "thorough": 3000}, [], "san"),
-           ("parse", {"quick": 30, "thorough": 3000}, [], "san")],
+    areas=[("io", {"quick": 200, "thorough": 2500}, [], "san"), ("groups", {"quick": 100, "thorough": 1500}, [], "san"),
+           ("parse", {"quick": 30, "thorough": 600}, [], "san")],
     obligations=[("Tmcg.C12.imported_indices_in_range", "full"), ("Tmcg.C12.import_alloc_bound", "full"),
                  ("Tmcg.C12.remask_never_traps", "full"), ("Tmcg.C12.mix_never_traps", "full"),
                  ("Tmcg.C12.verifier_index_safe", "full"), ("Tmcg.C12.size_mismatch_aborts", "full")],
@@ -957,7 +957,7 @@ def pred_c14(line, st):
 
 PROPS["C10"] = dict(
     module="TmcgProps.C10",
-    areas=[("rabin", {"quick": 8, "thorough": 40}, ["--sqrt-primes", "400"], "san")],
+    areas=[("rabin", {"quick": 8, "thorough": 12}, ["--sqrt-primes", "400"], "san")],
     obligations=[("Tmcg.C10." + n, "full") for n in (
         "sqrtmp_sq_all", "sqrtmnR_sq", "sqrtmnFastAll_sq", "precompute_ok", "verify_sign", "verify_neg_root", "verify_accepts_iff",
         "verify_accepted_square'", "verify_same_pad", "verify_data_collision", "verify_keyid", "decrypt_encrypt", "decrypt_accepts_iff",
@@ -976,7 +976,7 @@ PROPS["C10"] = dict(
 )
 PROPS["C14"] = dict(
     module="TmcgProps.C14",
-    areas=[("rbc", {"quick": 24, "thorough": 1500}, [], "san")],
+    areas=[("rbc", {"quick": 24, "thorough": 400}, [], "san")],
     obligations=[("Tmcg.C14.agreement", "full"), ("Tmcg.C14.integrity", "full"), ("Tmcg.C14.no_duplication", "full"),
                  ("Tmcg.C14.non_vacuous", "full"), ("Tmcg.C14.digest_zero_breaks_agreement", "full"),
                  ("Tmcg.C14.delivery_spec", "full"), ("Tmcg.C14.delivery_spec_fails_with_skip", "full"),
@@ -1251,7 +1251,7 @@ def pred_c17(line, st):
 
 PROPS["C16"] = dict(
     module="TmcgProps.C16",
-    areas=[("tsig", {"quick": 150, "thorough": 4000}, [], "san")],
+    areas=[("tsig", {"quick": 150, "thorough": 2000}, [], "san")],
     obligations=[("Tmcg.C16.dssVerify_iff", "full"), ("Tmcg.C16.dssVerify_textbook_signature", "full"), ("Tmcg.C16.dssVerify_range", "full"),
                  ("Tmcg.C16.ntsVerify_iff", "full"), ("Tmcg.C16.ntsVerify_textbook_signature", "full"), ("Tmcg.C16.ntsVerify_range", "full")],
     predicate=pred_c16,
@@ -1264,7 +1264,7 @@ PROPS["C16"] = dict(
 )
 PROPS["C17"] = dict(
     module="TmcgProps.C17",
-    areas=[("coin", {"quick": 300, "thorough": 6000}, [], "san")],
+    areas=[("coin", {"quick": 300, "thorough": 3000}, [], "san")],
     obligations=[("Tmcg.C17.flip2_agree", "full"), ("Tmcg.C17.commit_before_reveal", "full"),
                  ("Tmcg.C17.commitment_hides", "full"), ("Tmcg.C17.accept_iff", "full"),
                  ("Tmcg.C17.bad_opening_rejected", "full"), ("Tmcg.C17.commitment_binds", "full")],
@@ -1314,7 +1314,7 @@ def pred_c18(line, st):
 
 PROPS["C18"] = dict(
     module="TmcgProps.C18",
-    areas=[("ot", {"quick": 24, "thorough": 70}, [], "san")],
+    areas=[("ot", {"quick": 24, "thorough": 30}, [], "san")],
     obligations=[("Tmcg.C18.ot12_correct", "full"), ("Tmcg.C18.ot12_collision", "full"), ("Tmcg.C18.ot1N_correct", "full"),
                  ("Tmcg.C18.ot1N_collision", "full"), ("Tmcg.C18.ot1N_opt_correct", "full"), ("Tmcg.C18.bitlen_of_lt_q", "full"),
                  ("Tmcg.C18.sender_aborts_on_bad_query", "full"), ("Tmcg.C18.unchosen_not_decrypted", "full"),
@@ -1404,7 +1404,7 @@ def pred_c19(line, st):
 
 PROPS["C19"] = dict(
     module="TmcgProps.C19",
-    areas=[("pgpcodec", {"quick": 120, "thorough": 3000}, ["--s2k-sample"], "san")],
+    areas=[("pgpcodec", {"quick": 120, "thorough": 1500}, ["--s2k-sample"], "san")],
     obligations=[("Tmcg.C19.radix64_roundtrip", "full"), ("Tmcg.C19.radix64_lines_le_76", "full"),
                  ("Tmcg.C19.crc24_spec", "full"), ("Tmcg.C19.len_roundtrip", "full"),
                  ("Tmcg.C19.len_forms_disjoint", "full"), ("Tmcg.C19.partial_len_pow2", "full"),
@@ -1512,7 +1512,7 @@ def c20_coverage(st, thorough=False):
 
 PROPS["C20"] = dict(
     module="TmcgProps.C20",
-    areas=[("pgpmsg", {"quick": 20, "thorough": 120}, [], "san")],
+    areas=[("pgpmsg", {"quick": 20, "thorough": 60}, [], "san")],
     obligations=[("Tmcg.C20." + n, "full") for n in ['cfb_decrypt_encrypt', 'sym_roundtrip', 'mdc_detects', 'no_mdc_refused', 'sed_packet_refused', 'seipd_message_roundtrip', 'aead_decrypt_encrypt', 'aead_message_roundtrip', 'aead_empty_refused', 'aead_tamper_evident', 'aead_reorder_detected', 'aead_truncation_detected', 'aead_ad_bound', 'aead_nonces_distinct', 'validity_logic', 'validity_expired_flag', 'weak_hash_refused', 'unknown_hash_refused', 'left16_check', 'left16_pass', 'verifySig_digest', 'hash_input_injective_binary', 'hash_input_injective_text', 'hash_input_injective_standalone', 'hash_input_injective_key', 'hash_input_injective_key2', 'hash_input_injective_cert', 'sigTrailer_inj', 'textCanon_crlf']],
     predicate=pred_c20,
     final=lambda st: c20_coverage(st),
